@@ -42,9 +42,17 @@ fn main() {
         for (a, sevs) in solo.iter().enumerate() {
             let mine: Vec<&vh::arena::Event> = evs.iter().filter(|e| e.ar == a).collect();
             let n = mine.len().max(sevs.len());
+            // a request aligned above the chunk alignment makes the arena's behaviour depend on the absolute address
+            // the global allocator happened to return (environment, not another arena): from there on the pair is
+            // logged but not compared
+            let mut dep = 0u8;
             for k in 0..n {
+                if sevs.get(k).map(|e| e.align > 16 || e.oalign > 16).unwrap_or(false) { dep = 1; }
                 let x = mine.get(k).map(|e| arena::iso_of(e, false)).unwrap_or_else(|| arena::IsoEvent { p: pi, ar: a, i: k, op: "<missing>".into(), ..Default::default() });
                 let y = sevs.get(k).map(|e| arena::iso_of(e, true)).unwrap_or_else(|| arena::IsoEvent { p: pi, ar: a, i: k, solo: 1, op: "<missing>".into(), ..Default::default() });
+                let (mut x, mut y) = (x, y);
+                x.addrdep = dep;
+                y.addrdep = dep;
                 serde_json::to_writer(&mut wi, &x).unwrap(); wi.write_all(b"\n").unwrap();
                 serde_json::to_writer(&mut wi, &y).unwrap(); wi.write_all(b"\n").unwrap();
             }
